@@ -232,6 +232,9 @@ bool has_null_buf_string(const asn_TYPE_descriptor_t *td, void *st) {
         if(kind_octets(k) || kind_primbuf(k)) {
             // both layouts start with {uint8_t *buf; size_t size;}
             if(*(uint8_t **)n.ptr == nullptr) found = true;
+            // ... and an empty INTEGER / ENUMERATED / REAL / OID that still owns a scratch buffer (left by a starved XER decode):
+            // INTEGER_compare reads buf[0] of the EMPTY operand, i.e. whatever the allocator left there
+            else if(kind_primbuf(k) && ((size_t *)n.ptr)[1] == 0) found = true;
         }
         return !found;
     }, 5000);
